@@ -170,6 +170,33 @@ func runC13(w *eng.W) {
 			emit("look-alike", StrCase{Lit: Bytes(q + esc + q), Want: Bytes(t)})
 		}
 	}
+	// code points at the boundaries of the UTF-8 length classes through both escape forms, and raw bytes
+	// that are not valid UTF-8 (alone, as a truncated sequence, next to valid text): kept byte for byte
+	for _, cp := range []rune{0x7f, 0x80, 0x81, 0x85, 0xa0, 0xbf, 0xc0, 0xff, 0x100, 0x7ff, 0x800, 0xfff, 0x1000, 0x2027, 0x2029, 0xd7ff, 0xe000, 0xfffd, 0xffff} {
+		if !w.Take() {
+			continue
+		}
+		want := string(cp)
+		forms := []string{fmt.Sprintf("\\u%04x", cp), fmt.Sprintf("\\u%04X", cp)}
+		if cp <= 0xff {
+			forms = append(forms, fmt.Sprintf("\\x%02x", cp), fmt.Sprintf("\\x%02X", cp))
+		}
+		for _, f := range forms {
+			for _, q := range []string{"'", "\""} {
+				emit("boundary-code-points", StrCase{Lit: Bytes(q + f + q), Want: Bytes(want)})
+				emit("boundary-code-points", StrCase{Lit: Bytes(q + "a" + f + f + "z" + q), Want: Bytes("a" + want + want + "z")})
+			}
+		}
+	}
+	for _, raw := range []string{"\x80", "\x85", "\xa0", "\xbf", "\xc3", "\xe6\x85", "\xe2\x80", "\xf0\x9f\x98", "\xc0\x80", "\xed\xa0\x80", "\xff\xfe", "a\x85b", "\xc3\x85\x85", "\x85\x85"} {
+		if !w.Take() {
+			continue
+		}
+		for _, q := range []string{"'", "\""} {
+			emit("invalid-bytes", StrCase{Lit: Bytes(q + raw + q), Want: Bytes(raw)})
+			emit("invalid-bytes", StrCase{Lit: Bytes(q + "x" + raw + "y\\n" + q), Want: Bytes("x" + raw + "y\n")})
+		}
+	}
 	// a rejected text parsed immediately before must not influence the next literal
 	poisons := []string{"'\\xzz'", "\"\\uzzzz\"", "'C:\\users\\xavier'", "'abc", "'a\nb'", "\"\\xg1\"", "(1 2", "a b", "'\\u12", "'tail\\", "'p' + 'q\\xhh", "0x1 'k'"}
 	for _, pz := range poisons {
